@@ -14,7 +14,7 @@ TN = "TreeNodeWithPreviousValue."
 SM = "StorageManager."
 PROPS = {
     "C12": {
-        "verus": ["directory_publish"],
+        "verus": [("directory_publish", ["Directory.publish__tail", "Azks.get_latest_epoch"])],
         "search": True,
         "always_search": True,
         "bounded_search": [{"obligation": "replay/c12#overtaken_on_clone",
@@ -94,6 +94,25 @@ PROPS = {
                     "assumed std contracts: <[T]>::sort_unstable_by returns a rearrangement ordered by the comparator; <[u8; 32] as Ord>::cmp is byte-wise lexicographic (cross-checked by Kani c17_cmp_contract); Ordering::then"],
         "assumed": ["attacker-supplied epochs are < u64::MAX and the epoch list is shorter than usize::MAX (overflow guards)"],
     },
+    "C01": {
+        "verus": ["directory_publish", ("azks_audit", ["Azks.batch_insert_nodes", "Azks.increment_epoch", "AzksElementSet.deref"]),
+                  ("azks_walk", ["TreeNode.update_hash", "node_to_azks_value", "node_to_label", "new_leaf_node", "TreeNode.new"])],
+        "search": True,
+        "always_search": True,
+        "bounded_search": [{"obligation": "replay/c01#canonical_trie",
+                            "bound": "6 (thorough: 24) seeded random histories of 16 (30) publish calls over 3..8 labels per configuration, batches of 1..4 entries incl. no-op re-submissions and batches naming a label twice, "
+                                     "sequential and parallel insertion: after EVERY call epoch and root hash are compared with an independent computation of the canonical compressed trie over the prescribed leaves"}],
+        "scope": "partial. The heart of the statement - the root hash equals the hash of the canonical trie over the prescribed leaves, i.e. functional correctness of the recursive batch insertion - is NOT decided "
+                 "deductively; it is covered only by the BOUNDED differential check (never counted as proved). Deductive parts (single functions of the publish path): the middle of publish builds, for every labelled tuple of the "
+                 "batch, exactly the leaf the statement prescribes (stale tuple -> the stale constant; fresh tuple -> the commitment to (commitment key, node label, version, value)) and records a value state with the NEXT epoch "
+                 "for fresh tuples only (segment publish__build_update_set, HashMap loop through R-MAPITER, any iteration order); the tail announces current+1 only after an accepted commit and returns the current epoch "
+                 "unchanged for an empty update set; batch_insert_nodes advances the epoch by exactly one and leaves the tree untouched for an empty batch; update_hash stores the parent hash of exactly the values / labels "
+                 "node_to_azks_value / node_to_label report (leaf values with their epoch); new_leaf_node stamps a leaf with its birth epoch. Not decided: the duplicate-label check and the 'same value is skipped' filter "
+                 "(closures over iterators in the head of publish; bounded check only), trie insertion.",
+        "trusted": ["R-SEGMENT / R-MAPITER (vx_pop_any removes an ARBITRARY entry: every iteration order); T4 configuration hashes and the VRF as functions",
+                    "the independent canonical-trie computation in replay/exports (written from the statement; shares only the hash primitives and the VRF with the code under test)"],
+        "assumed": [],
+    },
     "C02": {
         "verus": [("directory_lookup", ["Directory.lookup", "Directory.lookup_with_info", "Directory.get_lookup_info", "Directory.build_lookup_info", "Directory.derive_commitment_key",
                                         "Directory.batch_lookup", "lemma_the_info", "get_marker_version", "Azks.get_latest_epoch"]), ("verify_lookup", ["lookup_verify"])],
@@ -144,7 +163,7 @@ PROPS = {
         "assumed": ["stored states satisfy 1 <= version <= epoch of the state (precondition of the segment: get_marker_versions needs start <= end <= epoch)"],
     },
     "C10": {
-        "verus": ["directory_publish", ("tree_node", [TN + "get_appropriate_tree_node_from_storage", TN + "determine_node_to_get", "TreeNode.get_from_storage", "TreeNode.get_child_label", "TreeNode.get_child_node"])],
+        "verus": [("directory_publish", ["Directory.publish__tail", "Directory.publish__after_commit", "Azks.get_latest_epoch"]), ("tree_node", [TN + "get_appropriate_tree_node_from_storage", TN + "determine_node_to_get", "TreeNode.get_from_storage", "TreeNode.get_child_label", "TreeNode.get_child_node"])],
         "search": True,
         "always_search": True,
         "bounded_search": [{"obligation": "replay/c10#single_fault_enumeration",
